@@ -126,7 +126,17 @@ func obsC06Cmd(in string) string {
 					root = f
 				}
 			}
-			out = c06Repeat(dir, runs, lseed, append(hd[1:], root))
+			argv, named := []string{}, false
+			for _, a := range hd[1:] {
+				if strings.HasPrefix(a, "@") { // a file of the case named in the command line
+					a, named = dir+"/"+a[1:], true
+				}
+				argv = append(argv, a)
+			}
+			if !named {
+				argv = append(argv, root)
+			}
+			out = c06Repeat(dir, runs, lseed, argv)
 			if hd[0] != "-" && !strings.HasPrefix(out, hd[0]+" ") {
 				out = strings.Replace(out, "runs=same", "diff expected class "+hd[0], 1)
 			}
@@ -158,7 +168,37 @@ func genC06Imp(out *caseWriter, seed uint64, n int, _ []string) error {
 			var fs []string
 			add := func(name, content string) { fs = append(fs, vesc(name), vesc(content)) }
 			expect := "-"
-			switch shape := r.intn(6); shape {
+			cmd := pick(r, []string{"balance --color=false", "print", "check", "balance --csv --months"})
+			switch shape := r.intn(8); shape {
+			case 6, 7: // infer: a training journal of several files, one of which cannot be loaded
+				// (a syntax error, or an include of a file that does not exist).  The command fails, on every run:
+				// the files that happened to be parsed before the failure must not decide anything (seeded changes
+				// C06f-infer-trains-on-partial-journal and C15f-infer-ignores-missing-training-file went on with
+				// whatever part of the training data had arrived)
+				nfiles := r.rangeInt(4, 9)
+				root := opens + "2021-01-01 open Expenses:Household\n2021-01-01 open Expenses:Office\n2021-01-01 open Expenses:Various\n2021-01-01 open Expenses:TBD\n\n"
+				exps := []string{"Expenses:Food", "Expenses:Household", "Expenses:Office", "Expenses:Various"}
+				bad := r.intn(nfiles)
+				for f := 0; f < nfiles; f++ {
+					root += fmt.Sprintf("include \"y/y%d.knut\"\n", 2015+f)
+					var b strings.Builder
+					for k, nt := 0, r.rangeInt(1, 40); k < nt; k++ {
+						b.WriteString(txn(1+(k+f)%28, "Migros Bern "+pick(r, []string{"Card", "Twint", "", "Online"}), "Assets:Bank", exps[f%len(exps)], r.rangeInt(1, 90)))
+					}
+					if f == bad {
+						if shape == 6 {
+							b.WriteString("2021-03-09 \"broken\nAssets:Bank Expenses:Food 1 CHF\n\n")
+						} else {
+							b.WriteString("include \"missing.knut\"\n")
+						}
+						b.WriteString(txn(28, "Migros Bern", "Assets:Bank", exps[(f+1)%len(exps)], 3))
+					}
+					add(fmt.Sprintf("y/y%d.knut", 2015+f), b.String())
+				}
+				fs = append([]string{vesc("root.knut"), vesc(root)}, fs...)
+				add("target.knut", txn(12, "Migros Bern Card", "Assets:Bank", "Expenses:TBD", r.rangeInt(1, 90))+txn(13, "Migros Bern", "Assets:Bank", "Expenses:TBD", 5))
+				cmd = "infer -t @root.knut @target.knut"
+				expect = "ERR"
 			case 5: // many files that all use the same, otherwise unknown, commodities first (registries filled concurrently)
 				nfiles, ncom := r.rangeInt(8, 16), r.rangeInt(20, 60)
 				root := opens
@@ -203,7 +243,6 @@ func genC06Imp(out *caseWriter, seed uint64, n int, _ []string) error {
 				add("d.knut", "include \"c.knut\"\n")
 				expect = "ERR"
 			}
-			cmd := pick(r, []string{"balance --color=false", "print", "check", "balance --csv --months"})
 			items = append(items, caseIn{fmt.Sprintf("C06imp-%d-%d", seed, i), "C06.cmd",
 				fmt.Sprintf("graph 16 %d | %s %s ## %s", ls, expect, cmd, strings.Join(fs, "|"))})
 		case i%10 == 7:
